@@ -102,6 +102,21 @@ def clear_shared_caches():
 STYLED_COLOURS = ["#a00a0a", "#0a0aa0", "#0aa00a", "#c8c800", "#7f7f7f", "#ff00ff"]
 
 
+class BigBlock:
+    """A renderable that yields many segments: n lines, each carrying the marker (a print of this must still reach the file in one piece)."""
+
+    def __init__(self, mid, nlines):
+        self.mid = mid
+        self.nlines = nlines
+
+    def __rich_console__(self, console, options):
+        from rich.segment import Segment
+
+        for i in range(self.nlines):
+            yield Segment("M%02da" % self.mid)
+            yield Segment("%d\n" % (i % 10))
+
+
 def marker_renderable(mid, nlines, styled):
     if not styled:
         return marker_text(mid, nlines)
@@ -130,6 +145,8 @@ def run_program(prog, preempt, tape, problems):
     twin = Console(file=io.StringIO(), **kw)
     s = Sched(dict((int(a), int(b)) for a, b in preempt), files=traced_files() | (deep_files() if deep else set()), tape=tape)
     sched_ref[0] = s
+    if isinstance(prog.get("_kinds"), list):
+        s.kinds = prog["_kinds"]
     con._lock = CoopRLock(s, "console")
     con._record_buffer_lock = CoopRLock(s, "record")
     display = None
@@ -152,9 +169,13 @@ def run_program(prog, preempt, tape, problems):
             RT.__init__ = init
             RT.start = lambda self: setattr(self, "_vp_worker", s.spawn(self.run, "refresher") if s.active else s.add(self.run, "refresher"))
             RT.join = lambda self, timeout=None: s.join(self._vp_worker)
+    import sys as _sys
+
+    saved_std = (_sys.stdout, _sys.stderr)
     try:
         return _run_program(prog, problems, s, sched_ref, f, con, twin, W, H, kind, auto, transient, styled, deep)
     finally:
+        _sys.stdout, _sys.stderr = saved_std
         for RT, i, st_, j in restore:
             RT.__init__, RT.start, RT.join = i, st_, j
 
@@ -167,10 +188,10 @@ def _run_program(prog, problems, s, sched_ref, f, con, twin, W, H, kind, auto, t
 
     display = None
     if kind == "live":
-        display = Live(RenderGroup(*[Text(l) for l in prog["frame0"]]), console=con, auto_refresh=auto, transient=transient, redirect_stdout=False, redirect_stderr=False)
+        display = Live(RenderGroup(*[Text(l) for l in prog["frame0"]]), console=con, auto_refresh=auto, transient=transient, redirect_stdout=bool(prog.get("redirect")), redirect_stderr=False)
         display._lock = CoopRLock(s, "live")
     elif kind == "progress":
-        display = Progress(TextColumn("{task.description} {task.completed:.0f}"), console=con, auto_refresh=auto, transient=transient, redirect_stdout=False, redirect_stderr=False, get_time=lambda: 1.0)
+        display = Progress(TextColumn("{task.description} {task.completed:.0f}"), console=con, auto_refresh=auto, transient=transient, redirect_stdout=bool(prog.get("redirect")), redirect_stderr=False, get_time=lambda: 1.0)
         display._lock = CoopRLock(s, "progress")
         tid = display.add_task("job", total=100)
     if display is not None:
@@ -195,6 +216,17 @@ def _run_program(prog, problems, s, sched_ref, f, con, twin, W, H, kind, auto, t
                 k = op[0]
                 if k == "print":
                     con.print(marker_renderable(op[1], op[2], styled))
+                elif k == "big":
+                    con.print(BigBlock(op[1], op[2]))
+                elif k == "stdout":
+                    import sys as _sys
+
+                    from rich.file_proxy import FileProxy
+
+                    if isinstance(_sys.stdout, FileProxy):
+                        _sys.stdout.write("M%02da\n" % op[1])   # the display redirects sys.stdout to the console
+                    else:
+                        con.print("M%02da" % op[1])              # (the display was stopped meanwhile)
                 elif k == "log":
                     con.log(marker_text(op[1], 1))
                 elif k == "capture":
@@ -229,6 +261,13 @@ def _run_program(prog, problems, s, sched_ref, f, con, twin, W, H, kind, auto, t
                 twin.file.truncate(0)
                 twin.log(marker_text(op[1], 1))
                 expected_text[op[1]] = twin.file.getvalue()
+            elif op[0] == "big":
+                twin.file.seek(0)
+                twin.file.truncate(0)
+                twin.print(BigBlock(op[1], op[2]))
+                expected_text[op[1]] = twin.file.getvalue()
+            elif op[0] == "stdout":
+                expected_text[op[1]] = "M%02da\n" % op[1]
             elif op[0] == "capture":
                 for mid in op[1]:
                     twin.file.seek(0)
@@ -373,6 +412,16 @@ AUTO_PROGRAMS = [
     {"display": "progress", "auto": True, "threads": [[["stop"]], [["print", 4, 1], ["stop"]]]},
     {"display": "live", "auto": True, "transient": True, "frame0": ["a"], "threads": [[["stop"]], [["stop"]]]},
 ]
+BIG_PROGRAMS = [
+    # one print of more than 2048 segments beside a small one (coarse: preempted at lock operations and writes, and at every 40th traced line)
+    {"coarse": 40, "threads": [[["big", 1, 1100]], [["print", 2, 1]]]},
+    {"coarse": 40, "record": True, "threads": [[["print", 3, 1], ["big", 4, 1030]], [["log", 5]]]},
+]
+REDIRECT_PROGRAMS = [
+    {"display": "live", "redirect": True, "frame0": ["a"], "threads": [[["stdout", 1]], [["refresh"], ["update", ["x", "y"], True]]]},
+    {"display": "live", "redirect": True, "auto": True, "frame0": ["a", "b"], "threads": [[["stdout", 2], ["print", 3, 1]], [["stdout", 4]]]},
+    {"display": "progress", "redirect": True, "threads": [[["stdout", 5]], [["advance", 1], ["refresh"]], [["stdout", 6]]]},
+]
 DEEP_PROGRAMS = [
     {"caches": "full", "threads": [[["print", 1, 1]], [["print", 2, 1]]]},
     {"caches": "cold", "styled": True, "threads": [[["print", 1, 1]], [["print", 2, 1]]]},
@@ -404,7 +453,14 @@ class Exhaustive(Part):
                 found.setdefault(sig, ({"program": pi, "preempt": [], "tape": [0]}, clause, detail))
             nthreads = len(prog["threads"]) + (1 if prog.get("auto") else 0)
             stride = 1 if steps <= 1500 or tier == "thorough" else 2   # programs traced into the shared-state modules have many more yield points
-            scheds = [[(k, c)] for k in range(0, steps, stride) for c in range(nthreads - 1)]
+            if prog.get("coarse"):
+                kinds = []
+                run_program(dict(prog, _kinds=kinds), [], [0], [])
+                every = prog["coarse"] if tier == "quick" else max(1, prog["coarse"] // 8)
+                points = [k for k, kd in enumerate(kinds) if kd != "line" or k % every == 0]
+            else:
+                points = range(0, steps, stride)
+            scheds = [[(k, c)] for k in points for c in range(nthreads - 1)]
             if tier == "thorough":
                 pairs = [[(a, 0), (b, cb)] for a in range(0, steps, 3) for b in range(a + 1, min(steps, a + 400), 5) for cb in range(nthreads - 1)]
                 scheds += pairs[:12000]
@@ -527,5 +583,7 @@ class Generated(Part):
 
 PARTS = [Exhaustive("plain-exhaustive", PLAIN_PROGRAMS, "programs without a display (print/log/capture/record)"), Exhaustive("live-exhaustive", LIVE_PROGRAMS, "programs with a Live or Progress display"),
          Exhaustive("auto-exhaustive", AUTO_PROGRAMS, "programs whose display runs its own auto-refresh thread (scheduled like any other thread; transient or not; threads that stop it)"),
+         Exhaustive("big-exhaustive", BIG_PROGRAMS, "programs in which one print yields more than 2048 segments"),
+         Exhaustive("redirect-exhaustive", REDIRECT_PROGRAMS, "programs in which threads write lines to sys.stdout while a display redirects it to the console"),
          Exhaustive("shared-state-exhaustive", DEEP_PROGRAMS, "programs printing (coloured) text with the library's process-wide caches emptied or at capacity, preempted also inside cells.py, _lru_cache.py, palette.py and color.py"),
          Generated()]
